@@ -35,6 +35,9 @@ pub struct VGene {
     pub size: u16,
     pub shape: u8,
     pub jit: i8,
+    /// extra payload bytes appended to the frame as one more unit (NAL / OBU / raw VP9 tail): samples beyond 64 KiB
+    #[serde(default)]
+    pub big: u32,
 }
 
 #[derive(Clone, Debug, Serialize, Deserialize, PartialEq, Eq, Hash)]
@@ -69,6 +72,129 @@ pub struct ValidCase {
     /// false: composition offsets of the genes are ignored (pts == dts everywhere)
     #[serde(default = "default_true")]
     pub reorder: bool,
+    /// Some: `video` / `audio` are empty and are generated from this compact description when the case is lowered
+    /// (long recordings: the replay file stays small)
+    #[serde(default)]
+    pub expand: Option<Expand>,
+}
+
+/// Compact description of a long, regular recording.
+#[derive(Clone, Debug, Serialize, Deserialize, PartialEq, Eq, Hash)]
+pub struct Expand {
+    pub nv: u32,
+    pub na: u32,
+    /// video / audio inter-sample distance in ticks
+    pub vd: u32,
+    pub ad: u32,
+    pub vsize: u16,
+    pub asize: u16,
+    /// video samples from this index on carry composition offsets (u32::MAX: never)
+    pub reorder_from: u32,
+    pub key_every: u32,
+    /// every n-th video delta is doubled (0: constant frame rate)
+    pub irregular_every: u32,
+    /// (video sample index, extra bytes)
+    pub bigs: Vec<(u32, u32)>,
+    /// vary frame shapes (false: the simplest one-unit frames, for the very long cases)
+    pub shapes: bool,
+}
+
+impl ValidCase {
+    /// The case with `expand` turned into explicit genes.
+    pub fn materialised(&self) -> std::borrow::Cow<'_, ValidCase> {
+        let e = match &self.expand {
+            None => return std::borrow::Cow::Borrowed(self),
+            Some(e) => e,
+        };
+        let mut c = self.clone();
+        c.expand = None;
+        let cts_pat = [1i64, 3, 0, 1];
+        c.video = (0..e.nv)
+            .map(|i| VGene {
+                ddts: if e.irregular_every > 0 && i % e.irregular_every == 0 { e.vd * 2 } else { e.vd },
+                cts: if i >= e.reorder_from { cts_pat[(i % 4) as usize] * e.vd as i64 } else { 0 },
+                key: e.key_every > 0 && i % e.key_every == 0,
+                size: e.vsize,
+                shape: if e.shapes { (i.wrapping_mul(37) % 256) as u8 } else { 0 },
+                jit: 0,
+                big: e.bigs.iter().find(|b| b.0 == i).map(|b| b.1).unwrap_or(0),
+            })
+            .collect();
+        c.audio = (0..e.na).map(|i| AGene { dpts: e.ad, size: e.asize, shape: if e.shapes { (i.wrapping_mul(29) % 256) as u8 } else { 1 }, jit: 0 }).collect();
+        c.const_rate = None;
+        c.fps_mode = None;
+        c.reorder = e.reorder_from != u32::MAX;
+        std::borrow::Cow::Owned(c)
+    }
+}
+
+pub const LONG_NOTE: &str = "fixed list of long / large recordings (compact `expand` descriptions): 1 100, 2 200, 2 100 (reordering starts at \
+     sample 2 060), 20 000, 36 000, 70 000 video samples; 27 000 + 42 188 A/V samples with ties; 70 000 audio samples; single samples of 1 MiB + 1, \
+     1.25 MiB, 1.5 MiB + 17, 2 MB, 2.5 MiB, 3 MiB at first / middle / last position, video-only and A/V, both layouts; a recording that crosses \
+     2^39 ticks; thorough tier: 1 048 700 video samples with audio ties after sample 2^20";
+
+fn long_cfg(codec: u8, audio: u8, fast_start: bool) -> CfgGene {
+    CfgGene {
+        codec,
+        audio,
+        rate_idx: 3,
+        channels: 2,
+        width: 640,
+        height: 360,
+        fast_start,
+        title: None,
+        ctime: None,
+        lang: None,
+        av1: None,
+        vp9: Vp9Key { profile: 0, byte4: 0, sync: 0, width: 640, height: 360, wlen: 2, hlen: 2, render: None, color: Some((0, None)), tail: 0 },
+    }
+}
+
+fn long_case(cfg: CfgGene, v_start: u64, a_off: u32, order: u8, e: Expand) -> ValidCase {
+    ValidCase { cfg, v_start, a_off, video: vec![], audio: vec![], const_rate: None, fps_mode: None, use_dts: 0, order, finish: 0, rejects: vec![], reorder: false, expand: Some(e) }
+}
+
+/// Long and large recordings (counts and sizes the random histories do not reach).  `huge`: also the > 2^20-sample recording.
+pub fn long_cases(huge: bool) -> Vec<ValidCase> {
+    let ex = |nv: u32, na: u32| Expand { nv, na, vd: 3000, ad: 1920, vsize: 19, asize: 17, reorder_from: u32::MAX, key_every: 30, irregular_every: 0, bigs: vec![], shapes: true };
+    let mut v = vec![
+        long_case(long_cfg(0, 0, true), 0, 0, 0, ex(1100, 0)),
+        long_case(long_cfg(1, 0, false), 9000, 0, 0, Expand { irregular_every: 7, ..ex(2200, 0) }),
+        long_case(long_cfg(0, 1, true), 0, 0, 1, Expand { reorder_from: 2060, ..ex(2100, 300) }),
+        long_case(long_cfg(2, 0, true), 0, 0, 0, ex(20_000, 0)),
+        long_case(long_cfg(3, 0, false), 0, 0, 0, Expand { key_every: 250, ..ex(36_000, 0) }),
+        long_case(long_cfg(0, 0, true), 0, 0, 0, Expand { shapes: false, ..ex(70_000, 0) }),
+        long_case(long_cfg(1, 2, false), 0, 0, 1, ex(27_000, 42_188)),
+        long_case(long_cfg(1, 7, true), 0, 0, 5, Expand { ad: 960, ..ex(27_000, 67_000) }),
+        long_case(long_cfg(0, 1, true), 0, 0, 1, Expand { vd: 448_000, ..ex(300, 70_000) }),
+        // single samples beyond 1 MiB
+        long_case(long_cfg(0, 0, false), 0, 0, 0, Expand { bigs: vec![(2, 1_310_720)], ..ex(5, 0) }),
+        long_case(long_cfg(1, 1, true), 0, 0, 1, Expand { bigs: vec![(0, 1_572_864 + 17)], ..ex(6, 8) }),
+        long_case(long_cfg(2, 7, false), 0, 0, 1, Expand { bigs: vec![(3, 3_145_728)], ..ex(4, 4) }),
+        long_case(long_cfg(3, 0, true), 0, 0, 0, Expand { bigs: vec![(1, 1_048_577), (2, 2_621_440)], ..ex(3, 0) }),
+        long_case(long_cfg(0, 3, false), 0, 0, 5, Expand { bigs: vec![(4, 2_000_000)], ..ex(8, 12) }),
+        long_case(long_cfg(1, 0, true), 0, 0, 0, Expand { bigs: vec![(8, 1_048_576 - 4)], ..ex(9, 0) }),
+        // a recording that crosses 2^39 ticks of the media clock (absolute / uptime-based timestamps)
+        long_case(long_cfg(0, 1, true), (1u64 << 39) - 45_000, 0, 1, ex(60, 90)),
+        long_case(long_cfg(1, 7, false), (1u64 << 33) - 4_500, 0, 1, ex(40, 40)),
+    ];
+    if huge {
+        // more than 2^20 video samples; the audio starts after video sample 2^20 and every audio sample ties with a video sample
+        v.push(long_case(
+            long_cfg(0, 1, true),
+            0,
+            1_048_580u32 * 3000,
+            1,
+            Expand { ad: 3000, shapes: false, key_every: 100_000, ..ex(1_048_700, 110) },
+        ));
+    }
+    v
+}
+pub fn long_cases_quick_or_all(t: crate::engine::Tier) -> Vec<ValidCase> {
+    long_cases(t == crate::engine::Tier::Thorough)
+}
+pub fn long_cases_all(_t: crate::engine::Tier) -> Vec<ValidCase> {
+    long_cases(true)
 }
 
 fn default_true() -> bool {
@@ -157,6 +283,8 @@ pub fn video_frame(cfg: &CfgGene, g: &VGene, idx: usize, first: bool, fc: &mut F
                 nals.push(NalGene { typ, len, fill, sc4: sc(i), aux });
             };
             let with_cfg = first || (g.key && sh & 8 != 0);
+            // one configuration in 8 carries a box type's bytes in one of its parameter sets
+            let dict = |slot: u16, fill: u8| if g.size % 8 == 5 && (g.size / 8) % 3 == slot { 192 + ((g.size / 24) % 48) as u8 } else { fill };
             if sh & 2 != 0 {
                 push(if hevc { h265t::AUD } else { h264t::AUD }, 1, 0, 0);
             }
@@ -165,12 +293,12 @@ pub fn video_frame(cfg: &CfgGene, g: &VGene, idx: usize, first: bool, fc: &mut F
             }
             if with_cfg {
                 if hevc {
-                    push(h265t::VPS, 4 + (sh as u16 % 9), 1, 0);
-                    push(h265t::SPS, 14 + (sh as u16 % 11), 2, 0);
-                    push(h265t::PPS, 2 + (sh as u16 % 3), 0, 0);
+                    push(h265t::VPS, 4 + (sh as u16 % 9), dict(2, 1), 0);
+                    push(h265t::SPS, 14 + (sh as u16 % 11), dict(0, 2), 0);
+                    push(h265t::PPS, 2 + (sh as u16 % 3), dict(1, 0), 0);
                 } else {
-                    push(h264t::SPS, 3 + (sh as u16 % 13), 2, 3);
-                    push(h264t::PPS, 1 + (sh as u16 % 4), 0, 3);
+                    push(h264t::SPS, 3 + (sh as u16 % 13), dict(0, 2), 3);
+                    push(h264t::PPS, 1 + (sh as u16 % 4), dict(1, 0), 3);
                 }
                 if sh & 8 != 0 && first {
                     // repeated, later-differing parameter sets: the FIRST ones must be used
@@ -204,9 +332,25 @@ pub fn video_frame(cfg: &CfgGene, g: &VGene, idx: usize, first: bool, fc: &mut F
             let fr = AnnexBFrame {
                 nals,
                 lead_zeros: if sh & 64 != 0 { 1 + (sh & 1) } else { 0 },
-                trail_zeros: if sh & 128 != 0 { 1 + ((sh >> 1) & 1) } else if sh % 13 == 5 { 100 + (sh & 1) } else { 0 },
+                trail_zeros: if g.big > 0 {
+                    0
+                } else if sh & 128 != 0 {
+                    1 + ((sh >> 1) & 1)
+                } else if sh % 13 == 5 {
+                    100 + (sh & 1)
+                } else {
+                    0
+                },
             };
-            let (bytes, units) = fr.build(hevc, tag);
+            let (mut bytes, mut units) = fr.build(hevc, tag);
+            if g.big > 0 {
+                // one more slice NAL of `big` bytes (no zero bytes, so no emulation prevention and no start code inside)
+                let mut nal = if hevc { vec![h265t::TRAIL << 1, 1] } else { vec![0x40 | h264t::SLICE] };
+                nal.extend_from_slice(&filler(g.big as usize, tag ^ 0x5a5a_0000_0000, 0));
+                bytes.extend_from_slice(&[0, 0, 1]);
+                bytes.extend_from_slice(&nal);
+                units.push(nal);
+            }
             if first {
                 for (gn, u) in fr.nals.iter().zip(units.iter()) {
                     if hevc {
@@ -262,10 +406,13 @@ pub fn video_frame(cfg: &CfgGene, g: &VGene, idx: usize, first: bool, fc: &mut F
                 fill: sh >> 6,
             });
             let fr = Av1Frame { obus, seq: Some(cfg.av1.clone().unwrap_or_else(Av1Seq::simple)) };
-            let (bytes, seq_obu) = fr.build(tag);
+            let (mut bytes, seq_obu) = fr.build(tag);
             if first {
                 fc.av1_obu = seq_obu;
                 fc.av1_expect = Some(fr.seq.as_ref().unwrap().normalised().expect());
+            }
+            if g.big > 0 {
+                bytes.extend_from_slice(&obu(4, false, 0, true, 0, &filler(g.big as usize, tag ^ 0x5a5a_0000_0000, 0)));
             }
             (bytes.clone(), bytes)
         }
@@ -280,13 +427,19 @@ pub fn video_frame(cfg: &CfgGene, g: &VGene, idx: usize, first: bool, fc: &mut F
                 if k.color.is_none() && k.tail > 0 {
                     k.color = Some((0, None));
                 }
-                let (bytes, exp) = k.build(tag);
+                let (mut bytes, exp) = k.build(tag);
                 if first {
                     fc.vp9_expect = Some(exp);
                 }
+                if g.big > 0 {
+                    bytes.extend_from_slice(&filler(g.big as usize, tag ^ 0x5a5a_0000_0000, 0));
+                }
                 (bytes.clone(), bytes)
             } else {
-                let b = vp9_delta(size as usize, tag);
+                let mut b = vp9_delta(size as usize, tag);
+                if g.big > 0 {
+                    b.extend_from_slice(&filler(g.big as usize, tag ^ 0x5a5a_0000_0000, 0));
+                }
                 (b.clone(), b)
             }
         }
@@ -327,6 +480,7 @@ pub fn audio_frame(cfg: &CfgGene, g: &AGene, idx: usize) -> (Vec<u8>, Vec<u8>) {
 }
 
 pub fn lower(c: &ValidCase) -> Lowered {
+    let c = &*c.materialised();
     let cfg = ccfg(&c.cfg);
     let has_audio = cfg.has_audio();
     let mut fc = FirstCfg::default();
@@ -575,6 +729,8 @@ pub fn title_strategy() -> impl Strategy<Value = String> {
         2 => "\\PC{0,60}",
         1 => Just(String::new()),
         1 => "[a-z ]{200,400}",
+        // dictionary: a box type inside the title (a byte search for a fourcc in the moov must not hit it)
+        1 => ("[ -~]{0,12}", 0usize..48, "[ -~]{0,12}").prop_map(|(a, i, b)| format!("{}{}{}", a, String::from_utf8_lossy(&FOURCC_DICT[i][..]), b)),
     ]
 }
 
@@ -758,8 +914,15 @@ pub fn vgene_strategy(reorder: bool) -> impl Strategy<Value = VGene> {
     } else {
         Just(0i64).boxed()
     };
-    (ddts_strategy(), cts, prop::bool::weighted(0.2), size_strategy(), any::<u8>(), -49i8..=49)
-        .prop_map(|(ddts, cts, key, size, shape, jit)| VGene { ddts, cts, key, size, shape, jit })
+    // samples beyond 1 MiB are rare (about one frame in 600) so that throughput stays high; the sizes straddle 2^20 and 2^21
+    let big = prop_oneof![
+        1200 => Just(0u32),
+        1 => 1_048_400u32..1_048_700,
+        1 => 2_097_000u32..2_097_300,
+        1 => 66_000u32..3_300_000,
+    ];
+    (ddts_strategy(), cts, prop::bool::weighted(0.2), size_strategy(), any::<u8>(), -49i8..=49, big)
+        .prop_map(|(ddts, cts, key, size, shape, jit, big)| VGene { ddts, cts, key, size, shape, jit, big })
 }
 
 pub fn agene_strategy() -> impl Strategy<Value = AGene> {
@@ -799,6 +962,7 @@ pub fn valid_case_strategy(maxv: usize, maxa: usize) -> impl Strategy<Value = Va
             finish,
             rejects,
             reorder,
+            expand: None,
         })
             .prop_perturb(|mut c, mut rng| {
                 use proptest::prelude::RngCore;
@@ -830,8 +994,14 @@ pub fn valid_case_strategy(maxv: usize, maxa: usize) -> impl Strategy<Value = Va
                 }
                 // dictionary: timestamps whose bytes spell a box type (a byte search for a fourcc must not hit them)
                 if r % 100 >= 97 {
-                    let magic = [b"trun", b"mdat", b"moov", b"stco", b"tfdt", b"moof", b"stsz", b"ftyp"][(r as usize >> 8) % 8];
+                    let magic = FOURCC_DICT[(r as usize >> 8) % FOURCC_DICT.len()];
                     c.v_start = u32::from_be_bytes(*magic) as u64;
+                } else if r % 100 >= 93 {
+                    // the recording straddles a power of two of the media clock (2^32 .. 2^44 ticks): arithmetic that keeps only
+                    // the low bits of a timestamp, or packs it with other fields, goes wrong exactly there
+                    let k = 32 + (r >> 8) % 13; // up to 2^44: beyond that an f64 second count no longer resolves the jittered tick
+                    let back = [1u64, 2, 1500, 3000, 4500, 9000, 90_000, 200_000][(r as usize >> 16) % 8];
+                    c.v_start = (1u64 << k) - back;
                 }
                 c
             })
